@@ -11,7 +11,9 @@
 (* param = [kw, kind, node, sw, cases, cands, start, max, head]             *)
 (*   (params are sorted by kw; every kw sorts after "additional_data")      *)
 (* A run R = [input |-> kwterm, plan |-> [node -> Seq(outcome)],            *)
-(*            recreq |-> [node -> Int]]  (recreq < 0: never asks to iterate) *)
+(*            recreq |-> [node -> Int]   (recreq < 0: never asks to iterate),*)
+(*            recfalsy |-> [node -> BOOLEAN] (the payload of next_iteration   *)
+(*                          is the falsy value 0)]                            *)
 (* outcome = <<"ok">> | <<"none">> | <<"falsy">> | <<"label", l>>          *)
 (*         | <<"raise", cls>>                                               *)
 (*                                                                         *)
@@ -41,7 +43,7 @@ Outcome(R, n, kw, k) ==
         req == R.recreq[n]
         it  == MaxDataKw(kw, n)
     IN  IF req >= 0 /\ o[1] = "ok" /\ it < req
-        THEN <<"rec", <<"data", n, it + 1>> >>
+        THEN <<"rec", IF R.recfalsy[n] THEN <<"falsy">> ELSE <<"data", n, it + 1>> >>
         ELSE o
 
 IsExc(cls) == cls \in {"E1", "E2", "E3"}
